@@ -216,6 +216,20 @@ def run_geom_case(ctx, case):
             okv = True
         ctx.check("invalid.neighbours", okv, "neighbours|invalid-cell-mapped", case,
                   lambda: {"cell": bad_c, "got": v3})
+    # ---- results kept by the caller stay valid after further calls on the grid
+    keep = [(int(c), gr.neighbours(int(c)), gr.cell2coord([int(c)]),
+             gr.cell2rowcol([int(c)])) for c in cells[:12]]
+    okk = True
+    wit = None
+    for c, nbk, cck, rck in keep:
+        ex, ey = g.centre(c)
+        if list(map(int, nbk)) != g.neighbours(c) or \
+                tuple(int(v) for v in rck[0]) != g.rowcol(c) or \
+                abs(Fraction(float(cck[0, 0])) - ex) > tol:
+            okk = False
+            wit = (c, list(map(int, nbk)), g.neighbours(c))
+    ctx.check("results-not-overwritten", okk, "neighbours-cell2coord|earlier-result-overwritten",
+              case, lambda: {"cell,kept,expected": wit})
     # ---- invalid cell numbers mixed with valid ones in one call: each answer must
     # depend on its own cell number only
     mix = np.array([0, -1, n - 1, n, int(cells[len(cells) // 2]), 2 ** 62, 0, -5, n + 7,
